@@ -6,6 +6,7 @@ package main
 import (
 	"archive/zip"
 	"bytes"
+	"crypto/sha1"
 	"path"
 	"regexp"
 	"sort"
@@ -55,8 +56,24 @@ func pkgKind(name, main string) string {
 	return "other"
 }
 
+// verdicts of pkgWFRaw by content (most parts are rewritten with the same bytes at every save of a behaviour)
+var pkgWFCache = map[[sha1.Size]byte]string{}
+
 // pkgWF reports how an XML part fails to be well-formed ("ok" if it does not).
 func pkgWF(b []byte) string {
+	h := sha1.Sum(b)
+	if v, ok := pkgWFCache[h]; ok {
+		return v
+	}
+	if len(pkgWFCache) > 200000 {
+		pkgWFCache = map[[sha1.Size]byte]string{}
+	}
+	v := pkgWFRaw(b)
+	pkgWFCache[h] = v
+	return v
+}
+
+func pkgWFRaw(b []byte) string {
 	if !utf8.Valid(b) {
 		return "utf8"
 	}
